@@ -16,7 +16,7 @@ SIZES = {
     "C14": {"quick": 260, "thorough": 2400},
     # C15: (data sets with sampled histories, data sets with ALL histories of
     # length <= 3)
-    "C15": {"quick": (200, 1), "thorough": (900, 12)},
+    "C15": {"quick": (120, 1), "thorough": (900, 12)},
 }
 
 ASSUMPTIONS = [
